@@ -269,6 +269,40 @@ func runC02(c *Ctx, r *Report) {
 		if hasSlice && fromValues {
 			nb++
 			r.Check(hasFind, "R-C02.6", r.Key("R-C02.6", join, "bounded-heads", ""), st.Pos(), "heads of the truncated log are FindHeads of the truncated list", "the bounded merge stores heads that are not recomputed by FindHeads over the truncated list")
+			// … on every path: no alternative keeps the heads computed before the cut
+			stale := ""
+			var leaves func(v ssa.Value, depth int)
+			leaves = func(v ssa.Value, depth int) {
+				if phi, ok := v.(*ssa.Phi); ok && depth < 6 {
+					for _, e := range phi.Edges {
+						leaves(e, depth+1)
+					}
+					return
+				}
+				found := false
+				// (the heads field itself is not looked through: what it held before the cut is the stale value)
+				for x := range backSliceOpt(v, func(y ssa.Value) bool {
+					if u, ok := y.(*ssa.UnOp); ok && u.Op == token.MUL {
+						if f, _ := fieldOf(u.X); f == headsF {
+							return false
+						}
+					}
+					return true
+				}, false) {
+					if call, ok := x.(*ssa.Call); ok && calleeOf(call) == findHeads {
+						found = true
+					}
+				}
+				if !found {
+					stale = p.Pos(v.Pos())
+					if stale == "?" || stale == "-" {
+						stale = v.String()
+					}
+				}
+			}
+			leaves(st.Val, 0)
+			r.Check(stale == "", "R-C02.6", r.Key("R-C02.6", join, "bounded-heads-every-path", ""), st.Pos(), "on every path the heads of the truncated log are recomputed over the truncated list",
+				"on some path the bounded merge keeps a head set that was not recomputed over the truncated list ("+stale+"): a head with a small clock sorts before the cut, stays a head, and is no longer an entry of the log")
 		}
 	}
 	r.Floor("R-C02.6", "heads stores of the bounded merge", nb, 1)
